@@ -44,9 +44,14 @@ def with_directives(prog, rng, density):
     ftree = ast.parse(fsrc)
     loops = _loops_preorder(ftree, [])
     expect = {'loops': {}, 'plain_for_targets': set(), 'plain_while': False}
+    n_empty = 0
     for k, lp in enumerate(loops):
         kind = 'for' if isinstance(lp, ast.For) else 'while'
-        if rng.random() < density:
+        if density > 0 and rng.random() < 0.12:
+            # a directive without arguments: removed from the body, the loop's options stay empty (/repo 41b6a09)
+            lp.body.insert(0, ast.parse('malt.experimental.set_loop_options()').body[0])
+            n_empty += 1
+        elif rng.random() < density:
             opts = {'maximum_iterations': 1000 + k}
             call = 'malt.experimental.set_loop_options(maximum_iterations=%d)' % (1000 + k)
             if rng.random() < 0.3:
@@ -60,13 +65,14 @@ def with_directives(prog, rng, density):
     for lp in _loops_preorder(mod, []):
         first = lp.body[0]
         has = isinstance(first, ast.Expr) and isinstance(first.value, ast.Call) and \
-            ast.unparse(first.value.func) == 'malt.experimental.set_loop_options'
+            ast.unparse(first.value.func) == 'malt.experimental.set_loop_options' and bool(first.value.keywords)
         if not has:
             if isinstance(lp, ast.For):
                 expect['plain_for_targets'].add(ast.unparse(lp.target))
             else:
                 expect['plain_while'] = True
-    p = progen.Program(head + 'import malt\n' + newf, prog.inputs, set(prog.features) | ({'directive'} if expect['loops'] else set()),
+    p = progen.Program(head + 'import malt\n' + newf, prog.inputs,
+                       set(prog.features) | ({'directive'} if expect['loops'] else set()) | ({'empty_directive'} if n_empty else set()),
                        prog.kind, decisions=prog.decisions, meta=prog.meta)
     return p, expect
 
@@ -171,7 +177,7 @@ def expect_of_source(source):
     for k, lp in enumerate(floops):
         first = lp.body[0]
         if isinstance(first, ast.Expr) and isinstance(first.value, ast.Call) and \
-                ast.unparse(first.value.func) == 'malt.experimental.set_loop_options':
+                ast.unparse(first.value.func) == 'malt.experimental.set_loop_options' and first.value.keywords:
             opts = {kw.arg: ast.literal_eval(kw.value) for kw in first.value.keywords}
             kk = opts.get('maximum_iterations', 1000 + k) - 1000
             expect['loops'][kk] = {'kind': 'for' if isinstance(lp, ast.For) else 'while',
@@ -179,7 +185,7 @@ def expect_of_source(source):
     for lp in _loops_preorder(ast.parse(source), []):
         first = lp.body[0]
         has = isinstance(first, ast.Expr) and isinstance(first.value, ast.Call) and \
-            ast.unparse(first.value.func) == 'malt.experimental.set_loop_options'
+            ast.unparse(first.value.func) == 'malt.experimental.set_loop_options' and bool(first.value.keywords)
         if not has:
             if isinstance(lp, ast.For):
                 expect['plain_for_targets'].add(ast.unparse(lp.target))
@@ -523,7 +529,12 @@ def check(run, only=None):
             for f in res['rt_failures']:
                 got_classes.setdefault(res['key'], set()).add(f['cls'])
         status = {}
+        errs = {res['key']: res['errors'] for res in results}
         for fn, p, e, j in corp:
+            if j.get('must_convert') and errs.get(p.key):
+                # witness of a repaired defect: it stays in the corpus and must pass
+                run.fail('corpus witness %s of a fixed defect does not convert' % fn,
+                         {'program': p.to_json(), 'errors': errs[p.key]}, None)
             want = j.get('expect_class')
             status[fn] = {'expect_class': want, 'observed_classes': sorted(str(c) for c in got_classes.get(p.key, set()))}
             # a listed witness that no longer fails means the defect was fixed: model and theorem must then be updated
